@@ -5,7 +5,7 @@ set -u
 D="$(readlink -f "$1")"
 WT="$(mktemp -d /tmp/seedverify_XXXXXX)"; rmdir "$WT"
 git -C /repo worktree add -q "$WT" HEAD || exit 2
-cp /repo/abacusnbody/version.py "$WT/abacusnbody/"
+cp /repo/abacusnbody/version.py "$WT/abacusnbody/"; cp -r /repo/abacusutils.egg-info "$WT/" 2>/dev/null
 git -C "$WT" apply "$D/patch.diff" || { echo "PATCH DOES NOT APPLY"; git -C /repo worktree remove --force "$WT"; exit 2; }
 echo "--- baseline tests with the change"
 (cd "$WT" && timeout 1500 /venv/bin/python -m pytest -q -p no:cacheprovider tests/test_util.py tests/test_tsc.py -k "not test_multi" 2>&1 | tail -2)
